@@ -543,7 +543,9 @@ def t_get_next_batch(E):
             n = src.fields['n']
             if not isinstance(n, VInt):
                 raise Unsupported('islice count %r' % (n,), node)
-            E.oblige(Qn + '/pre(islice).count_is_nonnegative', n.t >= 0)
+            E.oblige(Qn + '/pre(islice).count_is_nonnegative', n.t >= 0, props={'C10', 'C04'},
+                     detail='islice() raises ValueError for a negative count (max_batch_size may be lowered while a '
+                            'batch is assembled): the processing loop dies with the requests it holds')
             d = deq()
             t0 = now(E)
             avail = E.fresh('avail', I)            # number of items that have arrived and are not yet dequeued
@@ -683,14 +685,14 @@ def t_get_next_batch(E):
         E.cover('%s/exit[%s]' % (Qn, kind))
         if kind == 'raise':
             E.oblige(Qn + '/signals.only_a_foreign_RuntimeError_propagates',
-                     z3.BoolVal(exc.info.get('origin') == 'closed-loop'))
+                     z3.BoolVal(exc.info.get('origin') == 'closed-loop'), props={'C10', 'C04'})
             return
         if isinstance(r, VList) and not r.items:
             E.oblige(Qn + '/ensures.empty_batch_only_when_the_loop_is_closed', z3.BoolVal(bool(st.get('closed'))),
                      detail='return [] is the shutdown path; creating the batch task on a closed loop then raises')
             return
         ok = isinstance(r, Obj) and r.cls == 'AbsList'
-        E.oblige(Qn + '/ensures.returns_the_assembled_list', z3.BoolVal(ok))
+        E.oblige(Qn + '/ensures.returns_the_assembled_list', z3.BoolVal(ok), props={'C10', 'C04'})
         if not ok:
             return
         seq = r.fields['seq']
@@ -1095,9 +1097,9 @@ def t_call(E):
                 E.w['owed'] = E.w['owed'] - 1
                 check_inv('after done-callback')
             if st.get('timers'):
-                E.oblige(Qn + '/forget.timer_only_when_retention_positive', st['retention'] > 0, props={'C11'})
+                E.oblige(Qn + '/forget.timer_only_when_retention_positive', st['retention'] > 0, props={'C11', 'C15'})
             if st.get('deleted'):
-                E.oblige(Qn + '/forget.immediate_only_when_retention_is_zero', z3.Not(st['retention'] > 0), props={'C11'})
+                E.oblige(Qn + '/forget.immediate_only_when_retention_is_zero', z3.Not(st['retention'] > 0), props={'C11', 'C15'})
         else:
             E.oblige(Qn + '/share.nothing_enqueued_when_the_key_has_an_entry', z3.BoolVal(len(enq) == 0),
                      props={'C11', 'C04'})
